@@ -101,9 +101,12 @@ func buildPlan(id string, pinned map[string]string, tier string) *Plan {
 	case "C16":
 		p := &Plan{ID: id}
 		p.Units = append(p.Units, Unit{Pkg: "./field/koalabear/vortex", Tags: "", Groups: []string{"merkle"}})
-		p.Trusted = []string{"CompressPoseidon2 is a deterministic function of its arguments (assumed contract)", "i >> n == 0 iff 0 <= i < 2^n (arithmetic fact used to read the index-range clause)"}
-		p.NotCovered = []string{"BuildMerkleTree, MerkleTree.Open: not under contract (nested slices, parallel.Execute)", "accumulator/merkletree (RFC 6962 shaped tree): not under contract"}
-		p.Note = "MerkleProof.Verify accepts iff fold(leaf, proof, i) == root and 0 <= i < 2^len(proof); tamper rejection follows with the compression function uninterpreted."
+		p.Units = append(p.Units, Unit{Pkg: "./accumulator/merkletree", Tags: "", Groups: []string{"verify"}})
+		p.Trusted = []string{"CompressPoseidon2 is a deterministic function of its arguments (assumed contract)", "i >> n == 0 iff 0 <= i < 2^n (arithmetic fact used to read the index-range clause)",
+			"accumulator: leafSum, nodeSum and bytes.Equal are opaque calls (captured at the call site); elements of the proof set are not modelled; loop-carried digests are fresh allocations"}
+		p.NotCovered = []string{"BuildMerkleTree, MerkleTree.Open: not under contract (nested slices, parallel.Execute)",
+			"accumulator/merkletree: the tree builder (Push / PushSubTree / ReadAll / Prove) and the order in which VerifyProof combines siblings are not under contract (only totality and the acceptance-implies-check clauses are)"}
+		p.Note = "Vortex MerkleProof.Verify accepts iff fold(leaf, proof, i) == root and 0 <= i < 2^len(proof); tamper rejection follows with the compression function uninterpreted. Accumulator VerifyProof is total for every proof length, index and leaf count (no index out of range, no division by zero) and accepts only if a root was given, the index is below the leaf count, the proof is non-empty and the final comparison against the given root succeeded."
 		return p
 	case "C14":
 		p := &Plan{ID: id}
